@@ -954,7 +954,7 @@ func checkPrefixes(h History, scale, mapVar int, s *stats) (vs []viol, tr *trace
 
 // checkFaults: every physical write of the history fails once; the commit is issued again; all
 // roots that were finally acknowledged must be durable on the final image.
-func checkFaults(h History, scale, mapVar, nwrites int, reexec bool, s *stats, expired func() bool) (vs []viol, done bool) {
+func checkFaults(h History, scale, mapVar, nwrites int, baseErr string, reexec bool, s *stats, expired func() bool) (vs []viol, done bool) {
 	seen := map[string]bool{}
 	for p := 0; p < nwrites; p++ {
 		if expired() {
@@ -972,7 +972,11 @@ func checkFaults(h History, scale, mapVar, nwrites int, reexec bool, s *stats, e
 		}
 		if tr.liveErr != "" {
 			// the commit never reported success: the property promises nothing about that root
-			s.out("fault:commit-gave-up")
+			if tr.liveErr == baseErr {
+				s.out("fault:history-ends-in-the-same-commit-error-as-without-fault")
+			} else {
+				s.out("fault:commit-error-only-after-fault")
+			}
 		}
 		cd := openCold(tr.rec.m)
 		for bi, root := range tr.roots {
@@ -1138,12 +1142,12 @@ func run(c *fw.Ctx) {
 				// write faults: real sizes always; finer granularities only for the small histories
 				if (nbig == 0 || sc == scaleReal) && mv == 0 {
 					for _, reexec := range []bool{false, true} {
-						fv, done := checkFaults(h, sc, mv, len(tr.rec.log), reexec, &s, c.Expired)
+						fv, done := checkFaults(h, sc, mv, len(tr.rec.log), tr.liveErr, reexec, &s, c.Expired)
 						if !done {
 							capped = true
 						}
 						if len(fv) > 0 {
-							again, _ := checkFaults(h, sc, mv, len(tr.rec.log), reexec, &stats{}, never)
+							again, _ := checkFaults(h, sc, mv, len(tr.rec.log), tr.liveErr, reexec, &stats{}, never)
 							if !sameSigs(fv, again) {
 								s.out("unstable-observation")
 								fv = nil
@@ -1152,7 +1156,7 @@ func run(c *fw.Ctx) {
 						for _, v := range fv {
 							v = minimise(v, func(h2 History) []viol {
 								t2 := runHistory(h2, sc, -1, mv)
-								r, _ := checkFaults(h2, sc, mv, len(t2.rec.log), reexec, &stats{}, never)
+								r, _ := checkFaults(h2, sc, mv, len(t2.rec.log), t2.liveErr, reexec, &stats{}, never)
 								return r
 							})
 							c.Violation(v.sig, v.part, v.msg, v.cs)
@@ -1226,7 +1230,7 @@ func replay(c *fw.Ctx, raw json.RawMessage) {
 	describeLog(runHistory(cs.History, cs.Scale, -1, cs.MapVar))
 	if cs.Mode == "fault" {
 		tr := runHistory(cs.History, cs.Scale, -1, cs.MapVar)
-		vs, _ = checkFaults(cs.History, cs.Scale, cs.MapVar, len(tr.rec.log), cs.Reexec, &s, func() bool { return false })
+		vs, _ = checkFaults(cs.History, cs.Scale, cs.MapVar, len(tr.rec.log), tr.liveErr, cs.Reexec, &s, func() bool { return false })
 	} else {
 		vs, _ = checkPrefixes(cs.History, cs.Scale, cs.MapVar, &s)
 	}
